@@ -3224,8 +3224,14 @@ class BSP:
         prop_lump.write(write_array(self.lump_layout['STATICPROPLEAF'], leaf_array))
 
         prop_lump.write(struct.pack('<i', len(props)))
+        has_sec_flags = vers_num >= 10 or version is StaticPropVersion.V_LIGHTMAP_MESA
         for (leaf_off, model_ind), prop in zip(indexes, props):
             start = prop_lump.tell()
+            if prop.flags.value_sec and not (has_sec_flags or version.is_lightmap):
+                raise ValueError(
+                    f'Static prop flags {prop.flags!r} require the secondary flags field, '
+                    f'which {version.name} props do not have!'
+                )
             prop_lump.write(struct.pack(
                 '<3f3fH',
                 prop.origin.x,
